@@ -36,6 +36,18 @@ def run(tier, seed, replay=None):
             add("ps3", isotrees.ps3_tree(rng), ps3=True, reopen=3)
             add("ps3-par", isotrees.ps3_tree(rng), ps3=True, reopen=6, parallel=True)
             # later: time stamps change (and nothing else may)
+            # other images are built in between (another directory, the same directory in the other mode)
+            for i in range(4 if not full else 30):
+                t = isotrees.small_tree(rng, max_nodes=rng.choice([3, 8])) + [srv.dnode(["other"], 1500000000)] + \
+                    [srv.fnode(["other", "o%d.bin" % k], rng.choice([1, 3000, 70000]), cid="oth%d_%d" % (i, k), mtime=1500000001 + k) for k in range(rng.randrange(1, 12))] + \
+                    [srv.dnode(["other", "deep%d" % k], 1500000100 + k) for k in range(rng.randrange(0, 40))]
+                add("between%d" % i, t, reopen=3, between=["other"])
+            add("between-ps3", isotrees.ps3_tree(rng) + [srv.dnode(["other"], 1500000000), srv.fnode(["other", "x.bin"], 5000, cid="othx", mtime=1500000001)],
+                ps3=True, reopen=3, between=["other"])
+            # odd time stamps: the epoch itself, before it, far future
+            odd = isotrees.small_tree(rng, max_nodes=6) + [srv.fnode(["d", "EPOCH.BIN"], 10, cid="ep0", mtime=-1), srv.fnode(["d", "BEFORE.BIN"], 10, cid="ep1", mtime=-86400 * 400),
+                                                           srv.fnode(["d", "FUTURE.BIN"], 10, cid="ep2", mtime=4102444800), srv.dnode(["d", "epochdir"], -1)]
+            add("later-odd-times", odd, reopen=2, sleepMs=1100)
             add("later", isotrees.small_tree(rng, max_nodes=8), reopen=2, sleepMs=1100)
             add("ps3-later", isotrees.ps3_tree(rng), ps3=True, reopen=2, sleepMs=1100)
         srv.run_and_validate(ctx, cases, rep, module="IsoCursorTrace.tla", cfg="TR_IsoCursor.cfg")
